@@ -42,6 +42,7 @@ type Profile struct {
 	InitMin        int              // the initial stack has at least this many transactions
 	WidePopularP   float64          // probability (runs with 1024- or 256-byte blocks only) that the history ends with a transaction whose table has hundreds of ref blocks holding one object id
 	BigMultiP      float64          // probability that a multi-table Addition is a bulk import of 8-32 tables (the Addition API never compacts)
+	BigTableP      float64          // probability that the initial stack of a concurrent run starts with one table of 200-300 KB
 	IdxJumpP       float64          // probability that a transaction's limits lie far above the next update index (up to 2^55: names grow past 12 hex digits at 2^48)
 	ShortRangesP   float64          // probability that a range compaction covers just 2-3 tables at a random position of a deep stack
 }
@@ -474,8 +475,19 @@ func GenConc(prop string, seed uint64, p *Profile) *RunSpec {
 	if deepInit {
 		ni = 12 + r.Intn(12)
 	}
+	if p.BigTableP > 0 && (g.cfg.BlockSize == 0 || g.cfg.BlockSize == 1024) && r.Bool(p.BigTableP) {
+		// one table of 200-300 KB at the bottom of the initial stack
+		// (thresholds on table size: whole-file caching, lazy opening)
+		if ni == 0 {
+			ni = 1
+		}
+		spec.Setup = append(spec.Setup, OpSpec{Kind: OpOpen, H: setupHandle, Auto: false}, OpSpec{Kind: OpAdd, H: setupHandle, Txns: []TxnSpec{g.wideTxn()}})
+		ni--
+	}
 	if ni > 0 {
-		spec.Setup = append(spec.Setup, OpSpec{Kind: OpOpen, H: setupHandle, Auto: false})
+		if len(spec.Setup) == 0 {
+			spec.Setup = append(spec.Setup, OpSpec{Kind: OpOpen, H: setupHandle, Auto: false})
+		}
 		for i := 0; i < ni; i++ {
 			tx := g.txn()
 			tx.Bad = ""
